@@ -2,7 +2,7 @@
 import ast
 
 from ..core import AnalysisError, call_name, dotted, src, walk_shallow
-from ..lib import Rules, need, calls_in, method_calls
+from ..lib import Rules, need, need_selfcheck, calls_in, method_calls
 from ..lifetime import World, ResetAnalysis, rng_calls, self_path, global_writes
 from . import refcheck, pf_common
 
@@ -102,7 +102,7 @@ def rng(repo, chk):
            n == 0, construct='rng reachability')
     # embedded positive example: the recogniser must fire
     sample = ast.parse("def f(b):\n    return [x + random.uniform(0.001, 0.999) for x in b] + [np.random.rand()]\n")
-    need(len(rng_calls(sample)) == 2, 'RNG recogniser no longer fires on its embedded positive example')
+    need_selfcheck(len(rng_calls(sample)) == 2, 'RNG recogniser no longer fires on its embedded positive example')
     chk.ob('RNG', None, None, 'recogniser fires on the embedded positive example (random.uniform, np.random.rand)', True, construct='rng positive example', nontrivial=False)
 
 
@@ -143,7 +143,7 @@ def module_state(repo, chk):
     mod = repo.module('pero_ocr.document_ocr.page_parser')
     tree = _ast.parse("def f(x, _memo={}):\n    _memo[x] = 1\n    logger.cache.append(x)\n    return _memo\n")
     fake = FuncInfo(mod, None, 'f', tree.body[0], PP + ':<positive example>')
-    need(len(global_writes(repo, fake)) == 2, 'GLOBALS recogniser lost its positive example')
+    need_selfcheck(len(global_writes(repo, fake)) == 3, 'GLOBALS recogniser lost its positive example (store into and escape of a mutable default, in-place call on a module object)')
 
     # module-level mutable objects on the decoding path must not be mutated in place
     m = repo.module('pero_ocr.decoding.decoders')
